@@ -187,6 +187,10 @@ def supp_frame(tb, suppdir):
         tb = tb.tb_next
     if not frames:
         return ('outside-supp', '?', None)
+    # generic containers / memoisers say nothing about the mechanism: name the frame that used them
+    generic = ('merged_dict.', 'util.cached_property.', 'util.context_property.', 'scope.loop_aware_cached_property.')
+    while len(frames) > 1 and frames[-1][0].startswith(generic):
+        frames.pop()
     via = None
     if frames[-1][0].startswith('project.'):
         for f in reversed(frames):
@@ -354,7 +358,7 @@ class Mon(object):
                 n = st.stop()
         except BudgetExceeded:
             return ('budget', None, n)
-        except (KeyboardInterrupt, MemoryError):
+        except KeyboardInterrupt:
             raise
         except BaseException as e:
             return ('exc', e, n)
@@ -397,6 +401,10 @@ class Mon(object):
         mech = '%s:%s:%s:%s' % (entry, et, frame, trig)
         if isinstance(e, RecursionError):
             mech = '%s:RecursionError:cycle=%s' % (entry, recursion_cycle(tb, self.suppdir))
+            nbody = max([ci.longest_body(text)] + [ci.longest_body(t) for t in (ctx.files or {}).values()])
+            if nbody >= 100:
+                # not a cycle: recursion along a long chain of sequential regions
+                mech += ':longest-statement-list>=100'
         if via:
             mech += ':via-' + via
         if frame.startswith('project.') or isinstance(e, ImportError):
@@ -436,6 +444,9 @@ class Mon(object):
         if kind == 'budget':
             return out
         if kind == 'exc':
+            if isinstance(val, MemoryError):
+                p.inconclusive.append('MemoryError in lint although ast.parse accepted the text (%s)' % ctx.workload)
+                return out
             if isinstance(val, RecursionError) and self.recursion_outside(text, None, None, ctx):
                 p.count('outside_domain:nesting_beyond_recursion_limit')
                 return out
@@ -516,6 +527,10 @@ class Mon(object):
             return
         if isinstance(e, RecursionError) and self.recursion_outside(text, pos, L, ctx):
             p.count('outside_domain:nesting_beyond_recursion_limit')
+            return
+        if isinstance(e, MemoryError):
+            # the parser's own MemoryError on the marked text was handled above (outside the domain); a real one is no verdict
+            p.inconclusive.append('MemoryError in %s at %s (%s)' % (entry, pos, ctx.workload))
             return
         self.unexpected(entry, ctx, text, pos, e, L, tag)
 
@@ -678,12 +693,20 @@ def work_class(arg):
     return m.dump()
 
 
-def _run_hostile(m, part, h, stride=1):
+def _run_hostile(m, part, h, stride=1, family='hostile'):
     tmp = tempfile.mkdtemp(prefix='vf-')
     try:
         write_tree(tmp, h['files'])
-        ctx = Ctx(tmp, h['fname'], files=h['files'], workload='hostile:' + h['name'])
-        m.lint(ctx, h['text'], h['name'])
+        ctx = Ctx(tmp, h['fname'], files=h['files'], workload='%s:%s' % (family, h['name']))
+        if m.lint(ctx, h['text'], h['name']) is None:
+            # outside the domain (CPython itself cannot parse-or-reject the text): what supp does is recorded, not judged
+            L = ci.Lines(h['text'])
+            for entry, pos in (('lint', None), ('assist', (1, 1)), ('location', (1, 1))):
+                if pos is None or L.inside(pos):
+                    kind, val, _ = m._call(entry, ctx.project(), h['text'], pos, ctx.filename, budget_for(h['text']))
+                    part.hist('outside_domain_outcomes(observation only)', '%s on %s -> %s' % (
+                        entry, h['name'].rsplit(':', 1)[0], type(val).__name__ if kind == 'exc' else kind))
+            return
         if h.get('positions') is None:
             _all_positions(m, ctx, h['text'], h['name'], part, stride)
         else:
@@ -698,12 +721,16 @@ def work_hostile(arg):
     _silence()
     part = core.Part()
     m = Mon(part)
-    H = ci.hostile_cases()
+    fam = arg.get('family', 'hostile')
+    H = ci.family(fam, arg.get('tier', 'quick'))
     for idx in arg['indexes']:
         h = H[idx]
-        part.hist('hostile_family', re.sub(r'(-\d+)?(-row\d+)?(:unfinished-row\d+)?$', '', h['name']))
-        _run_hostile(m, part, h)
-        part.case('hostile:' + h['name'], nontrivial=True)
+        if fam == 'hostile':
+            part.hist('hostile_family', re.sub(r'(-\d+)?(-row\d+)?(:unfinished-row\d+)?$', '', h['name']))
+        else:
+            part.hist('family:' + fam, ':'.join(h['name'].split(':')[1:3]))
+        _run_hostile(m, part, h, family=fam)
+        part.case('%s:%s' % (fam, h['name']), nontrivial=True)
     if arg.get('outside'):
         # cursors outside the text: not judged (the property quantifies over positions inside the text), only recorded
         from supp import assistant
@@ -719,7 +746,7 @@ def work_hostile(arg):
                         r = type(e).__name__
                     part.hist('outside_domain:cursor_not_inside_text(observation only)',
                               '%s(%r, %s) -> %s' % (name, text, pos, r))
-    part.sample({'workload': 'hostile', 'names': [H[i]['name'] for i in arg['indexes'][:5]]})
+    part.sample({'workload': fam, 'names': [H[i]['name'] for i in arg['indexes'][:5]]})
     return m.dump()
 
 
@@ -805,7 +832,7 @@ def _split(job):
     if fn in ('work_gen', 'work_class'):
         return [[fn, dict(a, start=i, count=1)] for i in range(a['start'], a['start'] + a['count'])]
     if fn == 'work_hostile':
-        return [[fn, dict(a, indexes=[i], outside=False)] for i in a['indexes']]
+        return [[fn, dict(a, indexes=[i], outside=False)] for i in a['indexes']]  # keeps 'family' and 'tier'
     if fn == 'work_compiled':
         return [[fn, dict(a, modules=[x])] for x in a['modules']]
     return [job]
@@ -876,6 +903,20 @@ def main(run):
     idx = sorted(range(len(H)), key=hcost)
     nh = 48
     hjobs = [['work_hostile', {'indexes': idx[k::nh], 'outside': k == 0}] for k in range(nh) if idx[k::nh]]
+    fjobs = []
+    for fam, nchunks in (('targets', 32), ('del', 24), ('chars', 24), ('flat', 10 ** 6)):
+        cases = ci.family(fam, run.tier)
+
+        def fcost(i, cases=cases):
+            c = cases[i]
+            n = len(c['text']) + sum(len(t) for t in c['files'].values())
+            return -(n * n if c.get('positions') is None else n * (3 + len(c['positions'])))
+        order = sorted(range(len(cases)), key=fcost)
+        k = min(nchunks, len(order))
+        fjobs += [['work_hostile', {'family': fam, 'tier': run.tier, 'indexes': order[j::k], 'outside': False}] for j in range(k)]
+        run.extra.setdefault('family_sizes', {})[fam] = len(cases)
+    fjobs.sort(key=lambda j: -sum(len(ci.family(j[1]['family'], run.tier)[i]['text']) for i in j[1]['indexes'])
+               if j[1]['family'] == 'flat' else 0)
     cjobs = [['work_compiled', {'modules': c}] for c in core.chunks(ci.COMPILED_MODULES, 5)]
     ngen = run.pick(16, 96)
     gjobs = [['work_gen', {'seed': seed, 'start': s, 'count': 2, 'sizes': ['tiny', 'small'], 'exhaustive_sizes': ['tiny', 'small'],
@@ -886,7 +927,9 @@ def main(run):
     ncls = run.pick(16, 128)
     kjobs = [['work_class', {'seed': seed, 'start': s, 'count': 4, 'npos': run.pick(8, 20)}] for s in range(0, ncls, 4)]
     # long jobs first
-    alljobs = hjobs[:8] + jobs[:len(jobs) // 2] + gjobs + hjobs[8:] + jobs[len(jobs) // 2:] + kjobs + cjobs
+    nflat = sum(1 for j in fjobs if j[1]['family'] == 'flat')
+    alljobs = (fjobs[:nflat // 3] + hjobs[:8] + jobs[:len(jobs) // 2] + gjobs + fjobs[nflat // 3:] + hjobs[8:] +
+               jobs[len(jobs) // 2:] + kjobs + cjobs)
     maxs = collect(run, alljobs, timeout=run.pick(1200, 3600))
     run.extra['step_budget'] = {
         'budget': 'B(n) = 2e7 + 2e4*n LINE events on supp code objects for an n-byte text; 8*B on the second run',
